@@ -9,7 +9,8 @@ import json, os, subprocess, sys, shutil, glob, re
 ENV = dict(os.environ, GOFLAGS="-mod=mod", GOPROXY="off")
 PKGDIR = {"hseq_test": "hseq", "optics_test": "optics", "pipe_test": "pipe", "fork_test": "pipe/fork",
           "pair_test": "trait/pair", "duct_test": "duct", "monoid_test": "pure/monoid", "ord_test": "pure/ord", "eq_test": "pure/eq", "semigroup_test": "pure/semigroup",
-          "skiplist_test": "internal/maplike/skiplist", "pure_test": "internal/pipe"}
+          "skiplist_test": "internal/maplike/skiplist", "pure_test": "internal/pipe",
+          "slice_test": "internal/seq/slice", "list_test": "internal/seq/list"}
 MODULE = {"hseq": "hseq", "optics": "optics", "pipe": "pipe", "pipe/fork": "pipe", "trait/pair": "trait", "trait/seq": "trait",
           "duct": "duct", "pure/monoid": "pure", "pure/ord": "pure", "pure/eq": "pure", "pure/semigroup": "pure"}
 
@@ -43,7 +44,7 @@ def run_demo(pid, wt, demo, d):
     if d.startswith("internal/"):
         scratch = wt + "-stage"
         stage_internal(wt, scratch)
-        sd = {"internal/seq": "seq", "internal/maplike/skiplist": "maplike/skiplist", "internal/pipe": "internalpipe"}[d]
+        sd = {"internal/seq": "seq", "internal/seq/slice": "seq/slice", "internal/seq/list": "seq/list", "internal/maplike/skiplist": "maplike/skiplist", "internal/pipe": "internalpipe"}[d]
         if pid == "C20":
             sd = "pure"  # the demo of C20 is an external test of pure using internal/pipe through it
         shutil.copy(demo, os.path.join(scratch, sd, "zz_demo_test.go"))
